@@ -90,6 +90,8 @@ def build_inputs(case, seed):
     if m is not None:
         mb = rng.random(m) < 0.15
         dt = case.get("mdtype", "bool")
+        if case.get("neg_under_mask") and case["neg"] and tuple(m) == tuple(r):
+            mb[pos] = True            # the negative rms value sits under a masked pixel: still an invalid rms map
         mask = mb if dt == "bool" else mb.astype(int) if dt == "int" else mb.astype(float) * rng.choice([1.0, 2.5, -1.0])
     return data, rms, psf, mask
 
@@ -263,6 +265,11 @@ def gen_cases(ctx):
             for neg in (True, False):
                 cases.append(dict(R=R, d=d, r=d, p=(5, 5), m=(d if R == "hybrid" else None), neg=neg, nan=True,
                                   kind="jax" if R == "fourier" else "numpy"))
+    # a negative rms value that coincides with a masked pixel
+    for k, N in enumerate((8, 24, 40) if ctx.tier == "quick" else (8, 16, 24, 32, 40)):
+        for R in RENDERERS:
+            cases.append(dict(R=R, d=(N, N), r=(N, N), p=(5, 5), m=(N, N), neg=True, neg_under_mask=True,
+                              mdtype=["bool", "int", "float"][(k + len(cases)) % 3], fitter="multi" if R == "fourier" else "single"))
     # random consistent inputs of other sizes for the round trip
     for _ in range(30 if ctx.tier == "quick" else 300):
         N = int(rng.integers(8, 41))
@@ -285,6 +292,10 @@ def _job(args):
 TYPE_CASES = [("sersic", "flat"), ("sersic", "none"), ("dev", "tilted-plane"), ("Sersic", "flat"), ("sersic", "Flat"),
               ("gaussian", "none"), ("~", "none"), ("exp", "tilted_plane"), ("pointsource", "flat"),
               ("sersic_exp", "none"), ("doublesersic", "flat"), ("sersic_pointsource", "none"), ("sersic", "~")]
+
+
+def x64_child(payload):
+    return [run_fitter(c, payload["seed"] * 100003 + i) for i, c in enumerate(payload["cases"])]
 
 
 def run_types(ctx):
@@ -345,6 +356,13 @@ def correspondence(ctx):
     tdis, tvio = run_types(ctx)
     disagreements += tdis
     violations += tvio
+    # the same storage contract with 64-bit mode switched on (the mode the renderer docs recommend for direct amplitudes)
+    xc = [c for c in cases if allowed_outcomes(c) == {"ok"} and two_d(c)][:: max(1, len(cases) // 12)][:12]
+    from .common import run_children
+    xr = run_children("c18", "x64_child", [dict(cases=xc, seed=ctx.seed)], x64=True)[0]
+    stats["x64_storage_cases"] = len(xc)
+    for c, (r, stored) in zip(xc, xr):
+        violations += [Violation(v.signature + ":x64", v.what + " [jax_enable_x64 on]", dict(v.replay, x64=True)) for v in oracle_eval(c, r, stored)]
     # mask polarity through the model
     rng = ctx.rng("mask")
     M = _load()
@@ -405,5 +423,9 @@ def replay(ctx, payload):
     if payload.get("kind") == "oracle-types":
         return [v for v in run_types(ctx)[1] if v.replay.get("profile") == payload["profile"] and v.replay.get("sky") == payload["sky"]]
     c = {k: (tuple(v) if isinstance(v, list) else v) for k, v in payload["case"].items()}
-    r, stored = run_fitter(c, 0)
+    if payload.get("x64"):
+        from .common import run_children
+        r, stored = run_children("c18", "x64_child", [dict(cases=[c], seed=0)], x64=True)[0][0]
+    else:
+        r, stored = run_fitter(c, 0)
     return oracle_eval(c, r, stored)
